@@ -12,7 +12,7 @@ _NQ = max(1, len(_sel) // 40); _NT = max(1, len(_sel) // 1000)
 HARNESSES = []
 for _i, _h in enumerate(_sel):
     HARNESSES.append(Harness('forms13', _h['fn'], unwind=17, tiers=('quick', 'thorough'), mem_gb=6, timeout=900, validate_runs=200,
-                             rotate=None if _h.get('known') else ((_i * 31) % _NQ, _NQ), rotate_thorough=None if _h.get('known') else ((_i * 7907) % _NT, _NT), known=_h.get('known'),
+                             rotate=None if _h.get('known') else ((_i * 7901) % _NQ, _NQ), rotate_thorough=None if _h.get('known') else ((_i * 7907) % _NT, _NT), known=_h.get('known'),
                              bounds='instruction %s, %s-bit mode: same symbolic operand space as the C01 harness of the same name; strict validation on and off' % (_h['inst'], _h['mode'])))
 EXPLANATION = 'bounded symbolic execution of the real encoder twice (strict validation on / off) on the same symbolic operands'
 OUTSIDE = ['instruction-name round trip (inst_id_to_string / string_to_inst_id): the binary search over the name tables did not reach a verdict within budget (see DESIGN.md C13)',
